@@ -19,12 +19,12 @@ COQ_HEADER = ('From Coq Require Import ZArith.\n'
 CASE_TYPE = 'c19_case'
 CHECK = 'c19_check'
 SHOW = 'c19_show'
-SHARD = 150
+SHARD = 75
 RULE = ('layout cases = (poset as comparison matrix, c, dpth) with calc_levels / fcart / multipartite outputs; '
         'mover cases = (direction, distinct dyadic points, history of operations) with pos after every step; '
         'non-trivial = layout: >= 4 elements, >= 2 levels, some level with >= 2 elements and neither a chain '
         'nor an antichain; mover: >= 4 nodes, a level with >= 3 peers and >= 3 operations of >= 2 kinds')
-EXHAUSTIVE = {'thorough': 'layouts: every partial order on <= 4 labelled elements (all reflexive-antisymmetric-'
+EXHAUSTIVE = {'thorough': 'layouts: every partial order on <= 4 labelled elements (the empty poset included) (all reflexive-antisymmetric-'
                           'transitive matrices) with (c, dpth) = (0.5, 1); mover: every single operation '
                           '(swap of every pair, shift by -2..2, 7 jitter offsets, 5 place targets) on 3 fixed '
                           '5-node pictures in both orientations'}
@@ -32,8 +32,7 @@ TRUSTED_EXTRA = ['networkx.multipartite_layout is not modelled: only its contrac
                  'levels lower, distinct points) is checked on the implementation',
                  'comparison of layout / mover numbers with the Q model uses the tolerance 1e-9*max(1,|x|); '
                  'the order / level / exactness predicates are evaluated exactly on the implementation floats']
-ASSUMPTIONS = ['posets have at least one element (calc_levels raises ValueError on the empty poset)',
-               'node indexes given to the mover are in range; place_node is used in the vertical orientation only',
+ASSUMPTIONS = ['node indexes given to the mover are in range; place_node is used in the vertical orientation only',
                'fcart x coordinates are compared with the model only when no two elements of a level with '
                'different parents have priorities closer than 1e-9 (float rounding may break such ties either way)']
 
@@ -65,6 +64,11 @@ def frac_pair(p):
     """a float pair -> exact [num, den, num, den]"""
     a, b = Fraction(float(p[0])), Fraction(float(p[1]))
     return [a.numerator, a.denominator, b.numerator, b.denominator]
+
+
+def ffr1(x):
+    f = Fraction(float(x))
+    return [f.numerator, f.denominator]
 
 
 def unfrac(v):
@@ -137,7 +141,10 @@ def run_mover(case):
         def snap():
             p = m.pos
             return [frac_pair(p[i]) for i in range(len(p))] if sorted(p) == list(range(len(p))) else None
-        trace = [[0, snap()]]
+        def ints():
+            return [[int(x) for x in m.levels], [int(x) for x in m.peers_order],
+                    [ffr1(x) for x in m.pos_levels], [[ffr1(x) for x in row] for row in m.pos_peers]]
+        trace = [[0, snap(), ints()]]
         for op in case['ops']:
             code = 0
             try:
@@ -154,7 +161,7 @@ def run_mover(case):
                     m.direction = 'v' if op[1] else 'h'
             except Exception as e:  # noqa
                 code = op_code(e)
-            trace.append([code, snap()])
+            trace.append([code, snap(), ints()])
         return trace
     return list(guarded(go, 20))
 
@@ -195,17 +202,23 @@ def to_coq(case, out):
             rel = case.get('rel') or []
             e = '(LErr %d)' % ERR_KINDS.get(out[1], 11)
             levels, ldict, fc, mu = e, '[]', e, e
-        return ('Build_c19_case 0 %d %s %s %s %s %s %s %s true [] [] []'
+        return ('Build_c19_case 0 %d %s %s %s %s %s %s %s true [] [] [] []'
                 % (len(rel), coq(rel), q(Fraction(case['c'][0], case['c'][1])), zl(case['dpth']),
                    levels, ldict, fc, mu))
     pos0 = pts([unfrac(p) for p in case['pos']])
     if out[0] == 'ok':
         tr = '[' + '; '.join('(%d, %s)' % (e, pts([unfrac(p) for p in ps]) if ps is not None else '[]')
-                             for e, ps in out[1]) + ']'
+                             for e, ps, _ in out[1]) + ']'
+
+        def ql(vs):
+            return '[' + '; '.join(q(Fraction(a, b)) for a, b in vs) + ']'
+        ints = '[' + '; '.join('(%s, %s, %s, %s)' % (coq(i[0]), coq(i[1]), ql(i[2]), '[' + '; '.join(ql(r) for r in i[3]) + ']')
+                               for _, _, i in out[1]) + ']'
     else:
         tr = '[(%d, [])]' % ERR_KINDS.get(out[1], 11)
-    return ('Build_c19_case 1 0 [] (q 0 1) (0)%%Z (LErr 0) [] (LErr 0) (LErr 0) %s %s [%s] %s'
-            % ('true' if case['v'] else 'false', pos0, '; '.join(op_term(o) for o in case['ops']), tr))
+        ints = '[]'
+    return ('Build_c19_case 1 0 [] (q 0 1) (0)%%Z (LErr 0) [] (LErr 0) (LErr 0) %s %s [%s] %s %s'
+            % ('true' if case['v'] else 'false', pos0, '; '.join(op_term(o) for o in case['ops']), tr, ints))
 
 
 # ------------------------------------------------------------------ generators: posets
@@ -302,7 +315,7 @@ _EXH = None
 def exhaustive_layouts():
     global _EXH
     if _EXH is None:
-        _EXH = [layout_case('dag', None, rel, shape='exhaustive') for n in (1, 2, 3, 4)
+        _EXH = [layout_case('dag', None, rel, shape='exhaustive') for n in (0, 1, 2, 3, 4)
                 for rel in all_partial_orders(n)]
     return _EXH
 
@@ -430,8 +443,8 @@ def generate(rng, tier):
         cases += exl + exm
         n_lay, n_mov, max_n, max_ops = 9000, 9000, 12, 25
     else:
-        cases += rng.sample(exl, 100) + rng.sample(exm, 100)
-        n_lay, n_mov, max_n, max_ops = 800, 800, 8, 8
+        cases += rng.sample(exl, 60) + rng.sample(exm, 60)
+        n_lay, n_mov, max_n, max_ops = 500, 500, 8, 8
     for _ in range(n_lay):
         cases.append(random_poset_case(rng, max_n))
     for _ in range(n_mov):
